@@ -318,6 +318,8 @@ pub struct SpatialX {
 	pub max: f32,
 	pub attenuation: Option<Easing>,
 	pub strength: ValSpec,
+	/// 1 / 2: the emitter is placed exactly on the left / right ear of its listener (0.1 to the side, as first posed)
+	pub at_ear: u8,
 }
 
 #[derive(Clone, Debug)]
@@ -479,7 +481,7 @@ impl Program {
 					Op::AddTrack {
 						parent: if r.chance(0.4) { Some(r.below(8) as usize) } else { None },
 						spatial: if r.chance(0.35) {
-							Some(SpatialX { listener: r.below(4) as usize, pos: gen_vec3(r), min, max: min + r.f32_in(0.01, 200.0), attenuation: if r.chance(0.2) { None } else { Some(gen_easing(r)) }, strength: ValSpec::gen(r, 0.0, 1.0, &[0.0, 1.0, -0.5, 1.5]) })
+							Some(SpatialX { listener: r.below(4) as usize, pos: gen_vec3(r), min, max: min + r.f32_in(0.01, 200.0), attenuation: if r.chance(0.2) { None } else { Some(gen_easing(r)) }, strength: ValSpec::gen(r, 0.0, 1.0, &[0.0, 1.0, -0.5, 1.5]), at_ear: if r.chance(0.08) { 1 + r.below(2) as u8 } else { 0 } })
 						} else {
 							None
 						},
@@ -617,6 +619,8 @@ pub struct World {
 	pub rig: Rig,
 	pub clocks: Vec<Option<ClockHandle>>,
 	pub listeners: Vec<Option<ListenerHandle>>,
+	/// pose each listener was created with (same indices as `listeners`)
+	pub listener_poses: Vec<(Vec3, Quat)>,
 	pub mods: Vec<Option<AnyMod>>,
 	pub sends: Vec<Option<SendTrackHandle>>,
 	pub tracks: Vec<Option<AnyTrack>>,
@@ -653,7 +657,7 @@ impl World {
 			},
 			mb,
 		);
-		World { rig, clocks: vec![], listeners: vec![], mods: vec![], sends: vec![], tracks: vec![], statics: vec![], streams: vec![], fx, creation_errors: 0, ops_applied: 0 }
+		World { rig, clocks: vec![], listeners: vec![], listener_poses: vec![], mods: vec![], sends: vec![], tracks: vec![], statics: vec![], streams: vec![], fx, creation_errors: 0, ops_applied: 0 }
 	}
 
 	fn mod_ids(&self) -> Vec<ModulatorId> {
@@ -761,7 +765,10 @@ impl World {
 				}
 			}
 			Op::AddListener { pos, ori } => match self.rig.mgr.add_listener(Vec3::from(*pos), Quat::from_array(*ori)) {
-				Ok(h) => self.listeners.push(Some(h)),
+				Ok(h) => {
+					self.listeners.push(Some(h));
+					self.listener_poses.push((Vec3::from(*pos), Quat::from_array(*ori)));
+				}
 				Err(_) => self.creation_errors += 1,
 			},
 			Op::ListenerSetPos(i, p, t) => {
@@ -867,7 +874,17 @@ impl World {
 								sb = sb.with_send(live_sends[*s % live_sends.len()], v.to_value(&mods, |x| Decibels(x as f32)));
 							}
 						}
-						B::S(sb, live_listeners[sx.listener % live_listeners.len()], sx.pos)
+						let li = sx.listener % live_listeners.len();
+						let pos = if sx.at_ear > 0 {
+							// same expression as the library uses for the ear positions, so the difference is exactly zero
+							let live_idx: Vec<usize> = self.listeners.iter().enumerate().filter(|(_, l)| l.is_some()).map(|(i, _)| i).collect();
+							let (lp, lo) = self.listener_poses[live_idx[li]];
+							let ear = lp + lo * (if sx.at_ear == 1 { Vec3::NEG_X } else { Vec3::X } * 0.1);
+							[ear.x, ear.y, ear.z]
+						} else {
+							sx.pos
+						};
+						B::S(sb, live_listeners[li], pos)
 					}
 					_ => {
 						let mut tb = TrackBuilder::new().volume(volume).sound_capacity(*sound_cap).sub_track_capacity(*sub_cap).persist_until_sounds_finish(*persist);
